@@ -742,12 +742,14 @@ func init() {
 			{Name: "rotation", N: core.Const(320, 6000), Run: runRotation, Shard: 60, TimeoutS: 1800},
 			{Name: "batch", N: core.Const(640, 10000), Run: runBatch, Shard: 200, TimeoutS: 1800},
 			{Name: "e2e", N: core.Const(160, 3000), Run: runE2E, Shard: 50, TimeoutS: 1800},
+			{Name: "concurrent", N: core.Const(32, 320), Run: runConcurrent, Race: true, NRace: core.Const(8, 32), TimeoutS: 600},
 			{Name: "fragmented", N: core.Const(32, 400), Run: runFragmented, Shard: 8, TimeoutS: 1800},
 			{Name: "sanitizer", N: core.Const(96, 1500), Run: runSanitizer, Shard: 30, TimeoutS: 1800},
 			{Name: "ubsan", N: core.Const(1, 4), Run: runUBSan, Shard: 1, TimeoutS: 3600},
 		},
 		Cmds:          []string{"obipcr"},
 		AsanCmds:      []string{"obipcr"},
+		RaceFiles:     []string{"pkg/obiapat/"},
 		MinNontrivial: 300,
 		Post: func(tier string, counters map[string]int64) []string {
 			if os.Getenv("VERIF_ONLY") != "" {
